@@ -35,16 +35,28 @@ def gen(run, plans, cfg="Gen_XState.cfg", module="Gen_XState.tla"):
     return groups
 
 
+# Deviations that concern C01 / C03 only (whether PlayAndRepost / Walk accept a particular invalid peer block).
+# For the other properties decided by this specification the acceptance of such a block is outside what the
+# property states, so the specification is permissive there (R2): the deviation is enabled silently and the
+# rest of that behaviour is skipped, no KNOWN-FINDING line is printed.
+OUTSIDE = {"C02": ["KF_FrozenLedgerHeight"], "C17": ["KF_PoolMasksBlockOrder", "KF_FrozenLedgerHeight"],
+           "C18": ["KF_PoolMasksBlockOrder", "KF_FrozenLedgerHeight"], "C05": ["KF_PoolMasksBlockOrder", "KF_FrozenLedgerHeight"],
+           "C06": ["KF_PoolMasksBlockOrder", "KF_FrozenLedgerHeight"], "C13": ["KF_PoolMasksBlockOrder", "KF_FrozenLedgerHeight"]}
+
+
 def replay_validate(run, groups, extra_driver_args=(), trace_cfg="Trace_XState.cfg"):
-    known = vp.known_keys(run.pid)
+    known = {k: KF_DESC.get(k, d) + " [" + d + "]" for k, d in vp.known_keys(run.pid).items()}
     kf_consts = {k: "TRUE" for k in known if k.startswith("KF_")}
+    for k in OUTSIDE.get(run.pid, []):
+        kf_consts[k] = "TRUE"
+        known.setdefault(k, None)
     total = 0
     for p, behs, cat in groups:
         args = ["-catalog", cat, "-window", str(p.get("window", 0))] + list(p.get("driver_args", [])) + list(extra_driver_args)
         consts = {"Window": p.get("window", 0)}
         total += tracecheck.replay_and_validate(run, behs, driver="xstate-replay", driver_args=args,
                                                 trace_module="Trace_XState.tla", trace_cfg=trace_cfg, consts=consts,
-                                                kf_consts=kf_consts or None, kf_desc={k: known[k] for k in kf_consts},
+                                                kf_consts=kf_consts or None, kf_desc={k: known.get(k) for k in kf_consts},
                                                 name="w%d" % p.get("window", 0), batch=p.get("batch", 250))
         if run.violations:
             break
